@@ -305,6 +305,18 @@ def _case_wrap(W, n, m, variant, dec):
         W.require("wrap:centres:dims", set(r.dims) == {"t", "theta"} and r.sizes["theta"] == m, str(r.dims))
         r = r.compute(scheduler="synchronous") if hasattr(r.data, "dask") else r
         rr = r.transpose("t", "theta").data
+        # a second transform on the same Grid with other target_data of the same name, dims and shape
+        thc2 = np.stack([th1[:n], th0[:n]])
+        tdc2 = dasked(xr.DataArray(thc2, dims=["t", "zc"], name="theta"), {})
+        r2 = grid.transform(pda, "Z", b, target_data=tdc2, method="conservative")
+        r2 = r2.compute(scheduler="synchronous") if hasattr(r2.data, "dask") else r2
+        rr2 = r2.transpose("t", "theta").data
+        for c in (0, 1):
+            col = list(thc2[c])
+            bounds = [col[0]] + [(col[k] + col[k + 1]) / 2 for k in range(n - 1)] + [col[-1]]
+            r1 = grid.transform(xr.DataArray(phi[c], dims=["zc"], name="phi"), "Z", b,
+                                target_data=xr.DataArray(np.array(bounds, dtype=thc.dtype), dims=["zo"], name="theta"), method="conservative")
+            W.equal("wrap:centres:second-call-uses-its-own-target_data:col%d" % c, list(rr2[c]), list(r1.data), record=False)
         for c in (0, 1):
             col = list(thc[c])
             bounds = [col[0]] + [(col[k] + col[k + 1]) / 2 for k in range(n - 1)] + [col[-1]]
